@@ -125,8 +125,8 @@ def _shape_list(rng, depth: int, bullet_pool: str = "-*+", bare_ok: bool = True)
           item-break flag stayed set until a paragraph, code block or quote was written; an item ending in a rule, a table
           or an empty item lost the blank line before the NEXT item in every mode.  Rules and bare items are now allowed at
           every block position.]
-      (2) '* ___' is written '* * * *', which reads back as a rule, not an item (the document changes: C01/C04).
-          Hence: no rule under a '*' bullet.
+      (2) [repaired in flowmark, see KNOWN_FINDINGS C01-rule-under-star-bullet: '* ___' was written '* * * *', which reads
+          back as a rule, not an item.  Rules are now allowed under every bullet.]
       (3) lists in footnote definitions: Marko reads every following item of a list in a footnote as nested in the
           previous one ('[^n]: - a\n    - b'), and with empty items the formatter's output differs between the modes
           beyond blank lines ('[^n]: 7.\n\n    8.\n').  Hence: no footnote container in this family (the special
@@ -148,7 +148,7 @@ def _shape_list(rng, depth: int, bullet_pool: str = "-*+", bare_ok: bool = True)
                 pool = ["para"]
             elif style == "bare":      # items without any text block: a rule, nothing, or a list of such
                 pool = ["empty"] + (["list"] if depth < 2 else [])
-            if bare_ok and style != "plain" and (ordered or bullet != "*"):
+            if bare_ok and style != "plain":
                 pool += ["rule", "rule"]
             kinds.append(rng.choice(pool))
         kinds = [k for k in kinds if k != "empty"]
